@@ -190,7 +190,7 @@ func c02Run(u *Unit) {
 		tEnd := s.W.Now().Seconds()
 		can := s.CheckCanonical(nil)
 		if !ok {
-			sc.Violate("C02", "no-convergence:"+sp.Fault, fmt.Sprintf("cluster not back to the canonical state %.0f virtual minutes after healing (%s): %s; active=%v",
+			sc.Violate("C02", "no-convergence:"+can.Code, fmt.Sprintf("cluster not back to the canonical state %.0f virtual minutes after healing (%s): %s; active=%v",
 				c02Bound.Minutes(), sp.Fault, can.Why, s.ActiveNodes()), s.W.Describe())
 		}
 		after := ackedBetween(sc, tEnd-30, tEnd+1)
